@@ -17,7 +17,7 @@ Value encoding.  Abstract descriptor values are integers (obs, cond, sess, chan,
 rationals [num, den] (time) or lists of rationals (bins).  Flavours: descriptor container
 list | ndarray  x  label type int | str ('o01', 'c02', ... zero padded, so that string order is the
 integer order).  'time' is always a float coordinate.  Cells are tokens
-100*obs + 10*chan + sum_t w_t 2^(t-1)/d  (see the spec), decoded with
+101*obs + 10*chan + sum_t w_t 2^(t-1)/d  (see the spec), decoded with
 ``Fraction.limit_denominator(MAXDEN)`` and an absolute error bound of 1e-9: denominators are capped
 at MaxDen <= 6 by the specification's enabling condition of bin_time, so neighbouring admissible
 values are >= 1/30 apart and the decode is unambiguous.
@@ -44,6 +44,36 @@ INTKEYS = ('obs', 'cond', 'sess', 'chan', 'roi', 'phase', 'flag', 'mark')
 MISSKEYS = ('flag', 'mark')
 MISSING = -1
 LAYOUTS = ('C', 'F', 'T', 'S')    # memory layout of the source measurements
+# dtype of the source measurements ('narrow' = uint8 when every token fits, else int16)
+DTYPES = ('float64', 'int64', 'float32', 'int32', 'narrow')
+# real 'time' coordinate of abstract time value q (rational): A + B*q, or a label
+#   f1 float q | i small int | q q/250 | L 1.2e5 + q | E 1.7e9 + q/250 | s 't01'
+# i, q, E, s only for histories without bin_time: q and E are not exact in binary, so two bins with the
+# same rational mean time may differ in the last bit (the specification compares rationals); i and s
+# cannot hold a mean.  f1 and L stay exact for the denominators that occur.
+TIMEFLAVS = ('f1', 'L', 'i', 'q', 'E', 's')
+TIMEFLAVS_EXACT = ('f1', 'L')
+_TIMEMAP = {'f1': (0.0, 1.0, 1e-9), 'i': (0.0, 1.0, 1e-9), 'q': (0.0, 1 / 250, 1e-9), 'L': (1.2e5, 1.0, 1e-8),
+            'E': (1.7e9, 1 / 250, 5e-4), 's': (0.0, 1.0, 1e-9)}
+# per-behaviour decoding context (set by configure(); one behaviour at a time per process)
+CTX = {'time': 'f1', 'tol60': 6e-8, 'numtol': 1e-9}
+
+
+def configure(dtype='float64', timeflav='f1'):
+    """tolerances follow the mechanism: float64 data are exact to 1e-9; float32 data carry means
+    rounded to 24 bits (values < 2000: |error| < 2.5e-4 after a few operations); integer data are exact"""
+    CTX['time'] = timeflav
+    if dtype == 'float32':
+        CTX['tol60'], CTX['numtol'] = 0.03, 5e-4
+    else:
+        CTX['tol60'], CTX['numtol'] = 6e-8, 1e-9
+
+
+def pick_flavours(i, hist_ops):
+    """rotation of (dtype, time flavour) with the replay index"""
+    dtype = DTYPES[(i // 3) % len(DTYPES)]
+    pool = TIMEFLAVS_EXACT if 'bin_time' in hist_ops else TIMEFLAVS
+    return dtype, pool[(i // 7) % len(pool)]
 _PFX = {'obs': 'o', 'cond': 'c', 'sess': 's', 'chan': 'h', 'roi': 'r', 'phase': 'p', 'flag': 'f', 'mark': 'm'}
 PRODUCERS = ('split_obs', 'split_channel', 'split_time', 'split_merge', 'subset_obs', 'subset_channel',
              'subset_time', 'merge', 'odd_even', 'nested_odd_even', 'bin_time', 'time_as_observations',
@@ -132,7 +162,7 @@ def _colval(col, k):
 
 def _cell(row, col, tl):
     t = tl if tl != 0 else (row[1] if row[1] != 0 else col[1])
-    v = Fraction(100 * row[0] + 10 * col[0])
+    v = Fraction(101 * row[0] + 10 * col[0])
     if t != 0:
         v += _tl_tok(t)
     return q(v)
@@ -170,14 +200,40 @@ def norm_obs(o):
 def enc(key, v, flavour):
     """abstract descriptor value -> fresh value of the flavour"""
     if key == 'time':
-        return float(Fraction(v[0], v[1]))
+        return enc_time(Fraction(v[0], v[1]))
     if key == 'bins':
-        return np.array2string(np.array([float(Fraction(a, b)) for a, b in v]), precision=2, separator=',')
+        return np.array2string(np.array([enc_time(Fraction(a, b)) for a, b in v]), precision=2, separator=',')
     if v == MISSING and key in MISSKEYS:
         return float('nan') if flavour[1] == 'int' else None      # a missing entry
     if flavour[1] == 'int':
         return float(v) if key in MISSKEYS else int(v)
     return f'{_PFX[key]}{int(v):02d}'
+
+
+def enc_time(fr):
+    tf = CTX['time']
+    if tf == 's' and fr.denominator == 1:
+        return f't{int(fr):02d}'
+    if tf == 'i' and fr.denominator == 1:
+        return int(fr)
+    a, b, _ = _TIMEMAP[tf]
+    return a + float(fr) * b if b == 1.0 else a + float(fr) / round(1 / b)
+
+
+def _dec_time(x, tol_scale=1.0, what='time'):
+    if isinstance(x, (str, np.str_)):
+        s = str(x)
+        if len(s) >= 2 and s[0] == 't' and s[1:].isdigit():
+            return Fraction(int(s[1:]))
+        raise ProjectionError(what, f'time label {x!r}')
+    a, b, tol = _TIMEMAP[CTX['time']]
+    y = (float(x) - a) / b
+    if not np.isfinite(y):
+        raise ProjectionError(what, f'{x!r} is not finite')
+    fr = Fraction(y).limit_denominator(MAXDEN)
+    if abs(float(fr) - y) > tol * tol_scale:
+        raise ProjectionError(what, f'{x!r} is not a mean of source time points (flavour {CTX["time"]})')
+    return fr
 
 
 class ProjectionError(Exception):
@@ -219,13 +275,13 @@ def dec(key, v):
     if key in MISSKEYS and (v is None or (isinstance(v, (float, np.floating)) and v != v)):
         return MISSING
     if key == 'time':
-        return q(_frac(v, what='time'))
+        return q(_dec_time(v))
     if key == 'bins':
         s = str(v).strip()
         if not (s.startswith('[') and s.endswith(']')):
             raise ProjectionError('bins', f'bins entry {v!r}')
         nums = [x for x in re.split(r'[,\s]+', s[1:-1]) if x]
-        return [q(_frac(float(x), tol=0.0051, what='bins')) for x in nums]
+        return [q(_dec_time(float(x), tol_scale=0.0051 / _TIMEMAP[CTX['time']][2], what='bins')) for x in nums]
     if isinstance(v, (str, np.str_)):
         s = str(v)
         if key in MISSKEYS and s in ('nan', 'None', '<NA>', 'NaN'):
@@ -261,6 +317,9 @@ def project(ob):
     if not isinstance(ob, Dataset):
         raise ProjectionError('kind', f'{type(ob).__name__} is not a Dataset')
     m = np.asarray(ob.measurements)
+    if m.dtype.kind not in 'fiu':
+        raise ProjectionError('val', f'measurements have dtype {m.dtype}')
+    m = m.astype(np.float64)
     if m.ndim != (3 if temporal else 2):
         raise ProjectionError('val', f'measurements has ndim {m.ndim}')
     if temporal:
@@ -302,8 +361,8 @@ def project(ob):
     # cells: exact rationals with denominator <= MAXDEN (60 = lcm(1..6)); vectorised decode
     m60 = m * 60.0
     r60 = np.rint(m60)
-    if not np.all(np.isfinite(m60)) or float(np.max(np.abs(m60 - r60))) > 6e-8:
-        bad = [float(x) for x in m.ravel() if not np.isfinite(x) or abs(x * 60 - round(x * 60)) > 6e-8][:3]
+    if not np.all(np.isfinite(m60)) or float(np.max(np.abs(m60 - r60))) > CTX['tol60']:
+        bad = [float(x) for x in m.ravel() if not np.isfinite(x) or abs(x * 60 - round(x * 60)) > CTX['tol60']][:3]
         raise ProjectionError('val', f'cells {bad} are not means of source values (denominator <= {MAXDEN})')
     ints = r60.astype(np.int64).tolist()
     out['val'] = [[[_q60(n) for n in col] for col in row] for row in ints]
@@ -361,14 +420,15 @@ def _layout(m, layout):
     return view
 
 
-def make_source(src, flavour, layout='C'):
+def make_source(src, flavour, layout='C', dtype='float64', timeflav=None):
+    """the specification's Source(src) as a real object.  ``timeflav`` None: the configured one."""
     from rsatoolbox.data.dataset import Dataset, TemporalDataset
     kind, no, nc, nt = src_fields(src)
     m = np.zeros((no, nc, nt))
     for o in range(no):
         for c in range(nc):
             for t in range(nt):
-                m[o, c, t] = 100 * (o + 1) + 10 * (c + 1) + (0 if kind in (1, 4) else 2 ** t)
+                m[o, c, t] = 101 * (o + 1) + 10 * (c + 1) + (0 if kind in (1, 4) else 2 ** t)
     od = {'obs': _container([enc('obs', o + 1, flavour) for o in range(no)], flavour),
           'cond': _container([enc('cond', cond(o + 1), flavour) for o in range(no)], flavour),
           'sess': _container([enc('sess', sess(o + 1), flavour) for o in range(no)], flavour)}
@@ -377,11 +437,16 @@ def make_source(src, flavour, layout='C'):
     if kind >= 4:
         od['flag'] = _container([enc('flag', flag(o + 1), flavour) for o in range(no)], flavour)
         od['mark'] = _container([enc('mark', mark(o + 1), flavour) for o in range(no)], flavour)
+    if dtype == 'narrow':
+        dtype = 'uint8' if m.max() <= 255 else 'int16'
+    m = m.astype(dtype)
     if kind in (1, 4):
         return Dataset(_layout(m[:, :, 0].copy(), layout), descriptors={'session': 'x'}, obs_descriptors=od,
                        channel_descriptors=cd)
     m = _layout(m, layout)
-    td = {'time': _container([float(t + 1) for t in range(nt)], flavour)}
+    if timeflav is not None:
+        CTX['time'] = timeflav
+    td = {'time': _container([enc_time(Fraction(t + 1)) for t in range(nt)], flavour)}
     if kind == 3:
         td['phase'] = _container([enc('phase', phase(t + 1), flavour) for t in range(nt)], flavour)
     return TemporalDataset(m, descriptors={'session': 'x'}, obs_descriptors=od, channel_descriptors=cd,
@@ -520,7 +585,7 @@ def apply_event(heap, e, flavour, maxobj, scratch=None, variant=0):
 
 # ------------------------------------------------------------------ comparing what a call returned
 def _num_eq(x, fr):
-    return abs(float(x) - float(Fraction(fr[0], fr[1]))) <= 1e-9
+    return abs(float(x) - float(Fraction(fr[0], fr[1]))) <= CTX['numtol']
 
 
 def _label_eq(key, real, spec):
@@ -663,10 +728,13 @@ def project_heap(heap, maxobj):
     return [project(heap[o]) if o in heap else dict(NULL_OBS) for o in range(1, maxobj + 1)]
 
 
-def replay(src, hist, maxobj, flavour, variant=0, scratch=None, layout=None):
+def replay(src, hist, maxobj, flavour, variant=0, scratch=None, layout=None, dtype=None, timeflav=None):
     """Step one TLC behaviour through real objects.  Returns None or (step, key-suffix, detail)."""
     layout = layout or LAYOUTS[variant % 4]
-    heap = {1: make_source(src, flavour, layout)}
+    d0, t0 = pick_flavours(variant, {st['ev']['op'] for st in hist})
+    dtype, timeflav = dtype or d0, timeflav or t0
+    configure(dtype, timeflav)
+    heap = {1: make_source(src, flavour, layout, dtype)}
     prev = [expected(None)] * maxobj
     prev[0] = project(heap[1])
     for k, st in enumerate(hist):
@@ -720,15 +788,23 @@ def replay(src, hist, maxobj, flavour, variant=0, scratch=None, layout=None):
 
 
 # ------------------------------------------------------------------ I -> S: random histories
+def _grid(x, den):
+    x = float(x)
+    n = round(x * den)
+    if not np.isfinite(x) or abs(x * den - n) > max(CTX['tol60'], 1e-6) * den / 60:
+        raise ProjectionError('out', f'{x!r} is not a mean of the group\'s cells')
+    return Fraction(n, den)
+
+
 def _tp(v, o, c):
-    return Fraction(v[0], v[1]) - 100 * o - 10 * c
+    return Fraction(v[0], v[1]) - 101 * o - 10 * c
 
 
 def _ids(a):
     """decode observation id per row and channel id per column from the cells themselves"""
     val = a['val']
-    obs = [int(Fraction(val[r][0][0][0], val[r][0][0][1]) // 100) for r in range(len(val))]
-    ch = [int((Fraction(val[0][c][0][0], val[0][c][0][1]) - 100 * obs[0]) // 10) for c in range(len(val[0]))]
+    obs = [int(Fraction(val[r][0][0][0], val[r][0][0][1]) // 101) for r in range(len(val))]
+    ch = [int((Fraction(val[0][c][0][0], val[0][c][0][1]) - 101 * obs[0]) // 10) for c in range(len(val[0]))]
     return obs, ch
 
 
@@ -757,13 +833,16 @@ def _groups(col):
     return u, [[i for i, x in enumerate(col) if x == v] for v in u]
 
 
-def random_trace(rng, src, const, flavour, length, ops, scratch=None, layout='C'):
+def random_trace(rng, src, const, flavour, length, ops, scratch=None, layout='C', dtype='float64', timeflav='f1'):
     """random admissible history on real objects; returns the list of events with the projected
     post heap and output.  Admissibility mirrors Enabled() of the specification; the trace
     specification checks Enabled() itself, so a disagreement shows up as 'not enabled' (a machinery
     error, not a verdict)."""
     maxobj, maxrows, maxcols, maxtims = const['MaxObj'], const['MaxRows'], const['MaxCols'], const['MaxTims']
-    heap = {1: make_source(src, flavour, layout)}
+    configure(dtype, timeflav)
+    if timeflav not in TIMEFLAVS_EXACT:
+        ops = [x for x in ops if x != 'bin_time']
+    heap = {1: make_source(src, flavour, layout, dtype)}
     kind, no, nc0, nt0 = src_fields(src)
     # ghost time weights of temporal objects, only to respect the MaxDen enabling condition of bin_time
     ghost = {1: [[Fraction(int(u == t)) for u in range(nt0)] for t in range(nt0)] if kind not in (1, 4) else None}
@@ -903,8 +982,12 @@ def random_trace(rng, src, const, flavour, length, ops, scratch=None, layout='C'
             events.append({'ev': e, 'post': None, 'error': f'{type(ex).__name__}: {ex}',
                            'key': classify_raise(e, a, target_before, ex)})
             break
+        lost = False
         if op in PRODUCERS:
             ghost[free] = newghost if heap[free].__class__.__name__ == 'TemporalDataset' else None
+            # the ghost only serves admissibility; if the real object does not even have the expected
+            # number of time slices, record this event (the trace specification will reject it) and stop
+            lost = ghost[free] is not None and len(ghost[free]) != heap[free].measurements.shape[-1]
         elif op == 'drop':
             ghost.pop(o, None)
         try:
@@ -914,8 +997,9 @@ def random_trace(rng, src, const, flavour, length, ops, scratch=None, layout='C'
                 out = [project(p) for p in extra[1]]
             elif extra is not None and extra[0] == 'avg':
                 avg, uniq, n = extra[1]
+                # a mean of n rows whose cells have denominators dividing 60
                 out = [{'label': dec(e['by'], uniq[g]), 'n': int(n[g]),
-                        'mean': [q(Fraction(float(x)).limit_denominator(10000)) for x in avg[g]]} for g in range(len(uniq))]
+                        'mean': [q(_grid(x, 60 * max(int(n[g]), 1))) for x in avg[g]]} for g in range(len(uniq))]
             elif extra is not None and extra[0] == 'tensor':
                 ten, uniq = extra[1]
                 out = [{'label': dec(e['by'], uniq[g]),
@@ -930,4 +1014,6 @@ def random_trace(rng, src, const, flavour, length, ops, scratch=None, layout='C'
                 events.append({'ev': e, 'post': None, 'error': f'to_df: {msg}', 'key': 'df/to_df'})
                 break
         events.append({'ev': e, 'post': post, 'out': out})
+        if lost:
+            break
     return events
